@@ -174,7 +174,47 @@ func genDpkg(r *rand.Rand) gcase {
 	if n > 0 && !recs[n-1].installed {
 		cls += "-lastNI"
 	}
-	return gcase{format: "dpkg", data: data, expect: exp, known: true, class: cls, rtok: rtTok()}
+	c := gcase{format: "dpkg", data: data, expect: exp, known: true, class: cls, rtok: rtTok()}
+	if r.Intn(6) == 0 {
+		c.path, c.class = "usr/lib/opkg/status", cls+"-opkg" // OpenWrt's opkg keeps the same database at another path
+	}
+	return c
+}
+
+// genDpkgD: a file of var/lib/dpkg/status.d/ (distroless images): stanzas usually carry no Status field and are reported all the same; a stanza
+// that does carry one is judged by it.
+func genDpkgD(r *rand.Rand) gcase {
+	n := 1 + r.Intn(3)
+	if r.Intn(4) == 0 {
+		n = nrec(r)
+	}
+	recs := make([]dpkgRec, n)
+	var exp []nv
+	for i := range recs {
+		recs[i] = genDpkgRec(r)
+		if r.Intn(3) != 0 { // drop the Status field
+			var fs []dpkgField
+			for _, f := range recs[i].fields {
+				if !strings.EqualFold(f.key, "Status") {
+					fs = append(fs, f)
+				}
+			}
+			recs[i].fields = fs
+			exp = append(exp, nv{recs[i].name, recs[i].ver})
+		} else if recs[i].installed {
+			exp = append(exp, nv{recs[i].name, recs[i].ver})
+		}
+	}
+	e := randEols(r)
+	data := renderDpkg(recs, 0, func(int) int { return r.Intn(2) }, 0, e)
+	name := pick(r, []string{"base-files", "libc6", "netbase", "tzdata", "x.md5sums.real"})
+	return gcase{format: "dpkgd", data: data, expect: exp, known: true, class: "wf-statusd-" + e.String(), path: "var/lib/dpkg/status.d/" + name}
+}
+
+func badDpkgD(r *rand.Rand) gcase {
+	c := badDpkg(r)
+	c.format, c.path = "dpkgd", "var/lib/dpkg/status.d/base"
+	return c
 }
 
 var dpkgPool = []string{"Package: a", "Package: b", "Status: install ok installed", "Status: deinstall ok config-files", "Status: bad", "Status: install  ok installed", "Version: 1.0", "Version:", "Source: x (1", "Source: x (1)", " continuation", "\tcont", "", "", "nocolon", ": novalue", "Pack age: z", "package: lower", "Package : sp", "Description: d", " .", "Version: 2\r", "\r", "K\x01: v", "K: v\x01", "K: v\x7f", "Ké: v", "K: é", " ", "Status: install ok installed ", "Package:x", "a:b:c"}
